@@ -25,7 +25,7 @@ func runC40(c *Ctx) {
 		// the version stored and the version written to the marker are the same parameter
 		for _, in := range instrs(fn, AtomicOp(vers, "Store")) {
 			args := in.(*ssa.Call).Common().Args
-			ok := len(derivesFrom(args[len(args)-1], func(v ssa.Value) bool { p, ok := v.(*ssa.Parameter); return ok && p.Name() == "formatVers" }, 3)) > 0
+			ok := len(derivesFrom(args[len(args)-1], func(v ssa.Value) bool { p, ok := v.(*ssa.Parameter); return ok && p.Name() == ParamName(fn, 1) }, 3)) > 0
 			c.Ob("C40.O1", fn, "stored version is the finalized version", c.P.Pos(in.Pos()), ok, "")
 		}
 	}
@@ -36,7 +36,7 @@ func runC40(c *Ctx) {
 	// C40.O2
 	if fn := c.Fn("C40.O2", "p.(*DB).ratchetFormatMajorVersionLocked"); fn != nil {
 		fl := NewFlow(c.P).
-			Edge("not-downgrade", CmpGuard(token.LEQ, "FormatMajorVersion()", "formatVers"))
+			Edge("not-downgrade", CmpGuard(token.LEQ, "FormatMajorVersion()", ParamName(fn, 1)))
 		res := fl.Analyze(fn, emptyState())
 		c.noteFlow(fl)
 		mig := Pred("migration call", func(in ssa.Instruction) bool {
